@@ -183,15 +183,29 @@ def prettify_arith(chk, F):
             chk.decide(e in ("val.1.1", "orig.1", "1"), "prettify-arithmetic", fk, "displayed-exponent:" + e, fn.where(bb),
                        "the displayed unit carries the unit's own exponent", "the displayed unit is given exponent `%s` instead of the unit's own exponent" % e)
     # the prefix printed is the one whose value was divided by: format!("{}{}", p, ..) uses prefix.0 of the same item
-    h = F.hir_of(fn)
-    loops = [m for m in hir_walk(h["body"]) if m.get("k") == "Match" and m.get("src") == "ForLoopDesugar"]
-    ok = False
-    for m in loops:
-        txt = "\n".join(hirpp.tree(m))
-        if "context.registry.prefixes" in txt:
-            ok = "Option::Some{0: &(p, v)}" in txt and "val Div &v.pow(" in txt.replace("(&val Div", "(val Div").replace("&val Div", "val Div") and ("new_display(args.0)" in txt or "p" in txt)
-            pat_ok = "&(p, v)" in txt
-            ok = pat_ok
+    # decided on the MIR (no local names): every prefix value raised to the exponent is the `.1` of an entry of registry.prefixes,
+    # and the prefix name that is printed (a Display argument, or the argument of a naming helper) is the `.0` of that same entry
+    items = []
+    for bb, t in fn.calls():
+        if "callee" in t and t["callee"]["path"].endswith(NPOW):
+            for sub in [fn.apath(t["args"][0])]:
+                def prefix_items(ap):
+                    out = []
+                    if ap[1][-1:] == ("1",) and "registry.prefixes" in ap_str(ap) and "::next(" in ap_str(ap) and ap[0][0] == "call":
+                        out.append((ap[0], ap[1][:-1]))
+                    if ap[0][0] in ("call", "agg"):
+                        for x in ap[0][2]:
+                            out += prefix_items(x)
+                    return out
+                items += prefix_items(sub)
+    names = []
+    for bb, t in fn.calls():
+        if "callee" in t and (t["callee"]["path"].endswith("new_display") or facts.private_helper(F, CORE, t["callee"]["path"]) is not None):
+            for a_ in t["args"]:
+                ap = fn.apath(a_)
+                if ap[1][-1:] == ("0",) and "registry.prefixes" in ap_str(ap) and "::next(" in ap_str(ap):
+                    names.append((ap[0], ap[1][:-1]))
+    ok = bool(items) and bool(names) and all(any(facts.ap_match(n_, it) for it in items) for n_ in names) and all(any(facts.ap_match(n_, it) for n_ in names) for it in items)
     chk.decide(ok, "prettify-arithmetic", fk, "prefix-name-and-value-same-entry", fn.where(), "the printed prefix `p` and the divisor `v` are the two halves of one prefix-table entry",
                "prefix name and divisor are not bound from the same (p, v) entry")
 
